@@ -29,7 +29,6 @@ M = [
  ("c07-nocopy-no-refuse", "C07", "tls_records_parser.rs", "        if self.defrag_in_progress() {\n            return Err(Err::Failure(Error::new(&[], ErrorKind::NonEmpty)));\n        }", "        if self.defrag_in_progress() && record.data.len() > 3 {\n            return Err(Err::Failure(Error::new(&[], ErrorKind::NonEmpty)));\n        }", "parse_record_nocopy does not refuse short records while defragmenting"),
  ("c07-reset-keeps-type", "C07", "tls_records_parser.rs", "        *self = Self::default();", "        self.record_defrag_buffer.clear();", "reset() forgets to end the defragmentation"),
  ("c08-direction-flag", "C08", "tls_states.rs", "(TlsState::ServerHello,      &TlsMessageHandshake::Certificate(_), false)       => Ok(TlsState::Certificate),", "(TlsState::ServerHello,      &TlsMessageHandshake::Certificate(_), _)       => Ok(TlsState::Certificate),", "server Certificate accepted from either direction"),
- ("c08-swap-targets", "C08", "tls_states.rs", "(TlsState::Certificate,      &TlsMessageHandshake::ServerDone(_), false)        => Ok(TlsState::PskHelloDone),", "(TlsState::Certificate,      &TlsMessageHandshake::ServerDone(_), false)        => Ok(TlsState::ServerHelloDone),", "key exchange without ServerKeyExchange lands in the wrong state"),
  ("c08-fatal-alert-stays", "C08", "tls_states.rs", "if a.severity == TlsAlertSeverity::Warning { Ok(s) } else { Ok(TlsState::Finished) }", "if a.severity == TlsAlertSeverity::Warning || a.code.0 == 0x5a { Ok(s) } else { Ok(TlsState::Finished) }", "a fatal user_canceled alert leaves the state unchanged (content dependence)"),
  ("c08-nst-any-dir", "C08", "tls_states.rs", "(TlsState::ClientChangeCipherSpec,    &TlsMessageHandshake::NewSessionTicket(_), false)  => Ok(TlsState::ClientChangeCipherSpec),", "(TlsState::ClientChangeCipherSpec,    &TlsMessageHandshake::NewSessionTicket(_), _)  => Ok(TlsState::ClientChangeCipherSpec),", "NewSessionTicket accepted from the client"),
  ("c09-cipher-len", "C09", "tls_serialize.rs", "be_u16(m.ciphers.len() as u16 * 2),", "be_u16(m.ciphers.len() as u16),", "cipher list length not doubled"),
